@@ -14,6 +14,9 @@ import (
 	"verif/internal/hooks"
 )
 
+// Goid returns the id of the calling goroutine.
+func Goid() int64 { return goid() }
+
 func goid() int64 {
 	var buf [64]byte
 	n := runtime.Stack(buf[:], false)
